@@ -730,6 +730,29 @@ def check_C19(tier, seed, replay=None):
             f.write(texts[g.gi])
         for fi, fl in enumerate(flagsets if g.gi in sens_set else flagsets[:1]):
             jobs.append((g, pth, fl))
+    # the optimizer's own maps: merged character classes with repeated Unicode classes, inlined leaf rules (idiom family)
+    ucl_names = ["Lu", "Ll", "Nd", "L", "N", "Greek", "Latin", "Zs", "P"]
+    optg = []
+    for oi_ in range(30 if tier == "quick" else 300):
+        g = Gram(len(groups) + 1000 + oi_)
+        alts = []
+        for _a in range(rng.randint(2, 4)):
+            txt = "[" + "".join(rng.choice(["a", "b", "0", "x"]) for _ in range(rng.randint(0, 2))) + \
+                  "".join(("\\p{%s}" % u) for u in rng.sample(ucl_names, rng.randint(1, 3))) + "]" + ("i" if rng.random() < 0.2 else "")
+            alts.append(g.mk(k="cls", want=list(txt.encode())))
+        g.rules = [g.choice(alts)]
+        g.disp = [""]
+        g.compute_args()
+        optg.append(g)
+    optg += c09_idiom_groups(seed + 9, 20 if tier == "quick" else 200, len(groups) + 5000)
+    for g in optg:
+        pth = os.path.join(d, "o%d.peg" % g.gi)
+        texts[g.gi] = pack_text([g])
+        with open(pth, "w") as f:
+            f.write(texts[g.gi])
+        ep = ["-alternate-entrypoints", g.sname()]
+        jobs.append((g, pth, ["-optimize-grammar"] + ep))
+        jobs.append((g, pth, ["-optimize-grammar", "-optimize-basic-latin"] + ep))
     # big packs: many rules (maps beyond one bucket), with the optimizer
     for bi in range(3 if tier == "quick" else 12):
         pk = others[bi * 40:(bi + 1) * 40]
